@@ -13,6 +13,7 @@ import (
 	"net"
 	"sort"
 	"strings"
+	"sync"
 	"sync/atomic"
 	"testing"
 	"time"
@@ -93,7 +94,8 @@ type Peer struct {
 	Complete bool   `json:"complete"` // flag of the peer's first announcement
 }
 
-// Step kinds: 0 announce, 1 advance clock, 2 lookup.
+// Step kinds: 0 announce, 1 advance clock, 2 lookup, 3 several lookups at the same time (the tracker
+// serves announces in parallel), followed by a full lookup that is judged like any other.
 type Step struct {
 	K    int  `json:"k"`
 	Peer int  `json:"peer,omitempty"`
@@ -189,7 +191,7 @@ func gen(t *rapid.T) Case {
 		c.Peers = append(c.Peers, p)
 	}
 	chunks := rapid.SliceOfN(rapid.SliceOfN(rapid.Custom(func(t *rapid.T) Step {
-		k := rapid.SampledFrom([]int{0, 0, 0, 0, 1, 2}).Draw(t, "k")
+		k := rapid.SampledFrom([]int{0, 0, 0, 0, 0, 0, 0, 0, 1, 1, 2, 2, 3}).Draw(t, "k")
 		s := Step{K: k}
 		switch k {
 		case 0:
@@ -201,6 +203,9 @@ func gen(t *rapid.T) Case {
 		case 2:
 			s.T = rapid.SampledFrom([]int{0, 0, 0, 1}).Draw(t, "t")
 			s.N = rapid.IntRange(0, 4).Draw(t, "n")
+		case 3:
+			s.T = rapid.SampledFrom([]int{0, 0, 0, 1}).Draw(t, "t")
+			s.N = rapid.IntRange(2, 6).Draw(t, "goroutines")
 		}
 		return s
 	}), 0, 8), 1, 5).Draw(t, "steps")
@@ -266,7 +271,7 @@ func runOnce(c Case) (verdict pbt.Verdict, storeError bool) {
 		sharedID[id]++
 	}
 	for _, s := range c.Steps {
-		if s.K < 0 || s.K > 2 || s.Peer < 0 || s.Peer >= len(c.Peers) || s.T < 0 || s.T >= numTorrents || s.N < 0 || s.Sec < 0 {
+		if s.K < 0 || s.K > 3 || s.Peer < 0 || s.Peer >= len(c.Peers) || s.T < 0 || s.T >= numTorrents || s.N < 0 || s.Sec < 0 {
 			return pbt.Verdict{Discard: true}, false
 		}
 	}
@@ -419,6 +424,29 @@ func runOnce(c Case) (verdict pbt.Verdict, storeError bool) {
 			if st.N > 0 {
 				classes["partial-lookup"] = true
 			}
+		case 3:
+			g := st.N
+			if g < 2 {
+				g = 2
+			}
+			if g > 8 {
+				g = 8
+			}
+			var wg sync.WaitGroup
+			for k := 0; k < g; k++ {
+				wg.Add(1)
+				go func() {
+					defer wg.Done()
+					for r := 0; r < 6; r++ {
+						s.GetPeers(torrent(st.T), 3*len(c.Peers)+1)
+					}
+				}()
+			}
+			wg.Wait()
+			classes["concurrent-lookups"] = true
+			if msg := lookup(i, st.T, 0); msg != "" {
+				return pbt.Fail("after %d goroutines looked the torrent up at the same time: %s", g, msg), storeErr
+			}
 		}
 	}
 	for t := 0; t < numTorrents; t++ {
@@ -449,7 +477,7 @@ func runOnce(c Case) (verdict pbt.Verdict, storeError bool) {
 func TestProp(t *testing.T) {
 	pbt.Main(t, pbt.Spec{
 		ID: "C28",
-		Rule: "1-6 peers with drawn 20-byte ids (one in five shares its id with an earlier peer and differs in port and/or address: an agent that came back elsewhere), addresses from {IPv4, host name, IPv6 canonical/compressed, full 8-group, with zone, IPv4-mapped, short forms}, ports 0-65535 and completion flag announce 1-2 torrents through the real RedisStore on an in-process miniredis (window 10s|30s|1h x 2|3|5 windows, start at a drawn offset inside a window); steps: announce (flags only go false->true), advance the shared clock (total kept below (windows-1)*window so every announcement is still retained), lookup; every lookup must return <= n distinct announced peers with the announced address and port, and a lookup asking for more than three times the number of peers (large enough that every retained window is read completely) must return exactly the announced set with the latest flags (of several peers sharing an id, the one that announced last must be present; the earlier ones may be). " +
+		Rule: "1-6 peers with drawn 20-byte ids (one in five shares its id with an earlier peer and differs in port and/or address: an agent that came back elsewhere), addresses from {IPv4, host name, IPv6 canonical/compressed, full 8-group, with zone, IPv4-mapped, short forms}, ports 0-65535 and completion flag announce 1-2 torrents through the real RedisStore on an in-process miniredis (window 10s|30s|1h x 2|3|5 windows, start at a drawn offset inside a window); steps: announce (flags only go false->true), 2-6 goroutines looking a torrent up at the same time, advance the shared clock (total kept below (windows-1)*window so every announcement is still retained), lookup; every lookup must return <= n distinct announced peers with the announced address and port, and a lookup asking for more than three times the number of peers (large enough that every retained window is read completely) must return exactly the announced set with the latest flags (of several peers sharing an id, the one that announced last must be present; the earlier ones may be). " +
 			"non-trivial = at least one announced peer and one full lookup; distinct by case hash",
 		Assumptions: []string{
 			"miniredis v2.5.0 stands in for Redis (SADD, EXPIREAT, SRANDMEMBER); its clock is set and fast-forwarded together with the harness clock",
